@@ -3,6 +3,7 @@ import DaskModel.Lemmas.CreationLemmas
 import DaskModel.Lemmas.CreationFloatLemmas
 import DaskModel.Lemmas.DiagonalLemmas
 import DaskModel.Lemmas.DiagonalNdLemmas
+import DaskModel.Lemmas.CreationGridLemmas
 import DaskModel.Lemmas.ChunksNormalize
 /-!
 # C34 — array creation routines are chunk-invariant and equal NumPy (theorems)
@@ -429,6 +430,51 @@ example : (List.range 4).map (fun r => (List.range 4).map (fun c => diagKDen (0 
 /-- **diag_2d_fast_den** (`diag(v)`, 2-d `v`, `k = 0`, equal row and column chunks): output position `p` reads `v[p, p]` -/
 theorem diag_2d_fast_den (cs : List Nat) (p : Nat) (hp : p < sum cs) : diag2dFastRead cs p = some (p, p) :=
   diag2dFast_den cs p hp
+
+/-! ### `meshgrid`, `indices`, `fromfunction` (Model/CreationGrid.lean) -/
+
+/-- **grid_den** (`fromfunction`; `indices` with `g = (·[j]?)`): for every chunking of every axis and *any* function `g`
+    of the global index, the value the assembled array holds at `p` — `g` evaluated by `p`'s block on
+    `block offset + local index` — is `g p`: NumPy's `fromfunction` / `indices`. -/
+theorem grid_den {α} (g : List Nat → α) (chunks : List (List Nat)) (p : List Nat) (h : InRange chunks p) :
+    gridRead g chunks p = some (g p) := by
+  obtain ⟨locs, h1, _⟩ := locateAll_of_inRange chunks p h
+  simp only [gridRead, h1, bind, Option.bind, pure, addOffs_locate chunks p locs h1]
+
+/-- **indices_den**: component `j` of `indices(dims, chunks)` at `p` is `p[j]` … -/
+theorem indices_den (chunks : List (List Nat)) (p : List Nat) (j : Nat) (h : InRange chunks p) :
+    gridRead (fun i => i[j]?) chunks p = some p[j]? := grid_den _ chunks p h
+
+/-- … and component `j` is block `j` (offset `0`) of the leading axis, whose chunks are all `1` -/
+theorem indices_axis0 : ∀ (n j : Nat), j < n → blockOf (List.replicate n 1) j = some (j, 0)
+  | 0, j, h => by omega
+  | n + 1, 0, _ => by simp [List.replicate_succ, blockOf]
+  | n + 1, j + 1, h => by
+    simp only [List.replicate_succ, blockOf]
+    have : ¬ (j + 1 < 1) := by omega
+    simp only [this, if_false, Nat.add_sub_cancel]
+    rw [indices_axis0 n j (by omega)]; rfl
+
+example : gridRead weightedSum [[2, 1], [1, 3]] [2, 3] = some 8 := by decide
+example : InRange [[2, 1], [1, 3]] [2, 3] := ⟨by decide, by decide, trivial⟩
+
+/-- **meshgrid_den** (`indexing` `xy`/`ij`, `sparse` or dense, any number of inputs, any chunking of each): output `j`
+    holds at position `p` the element `p[σ j]` of input `j`, where `σ` swaps the first two axes for `xy`; found through
+    `p`'s block of the output and the block of `xi[j]` broadcast into it. -/
+theorem meshgrid_den (cs : List (List Nat)) (xy sparse : Bool) (j : Nat) (p : List Nat)
+    (h : InRange (meshgridChunks cs xy sparse j) p) (hj : j < cs.length) :
+    meshgridRead cs xy sparse j p = p[sigma xy cs.length j]? := by
+  obtain ⟨locs, h1, _, _, hlocs⟩ := locateAll_of_inRange _ p h
+  obtain ⟨c, hc⟩ : ∃ c, cs[j]? = some c := ⟨cs[j], by simp [hj]⟩
+  have hg := meshgridChunks_get cs xy sparse j
+  rw [hc] at hg
+  obtain ⟨b, o, pv, e1, e2, e3⟩ := hlocs _ c hg
+  simp only [meshgridRead, h1, e1, hc, bind, Option.bind, pure, e2, e3]
+
+example : meshgridChunks [[2, 1], [4], [1, 1]] true false 0 = [[4], [2, 1], [1, 1]] := by decide
+example : meshgridChunks [[2, 1], [4], [1, 1]] true true 0 = [[1], [2, 1], [1]] := by decide
+example : meshgridRead [[2, 1], [4], [1, 1]] true false 0 [3, 2, 1] = some 2 := by decide
+example : InRange (meshgridChunks [[2, 1], [4], [1, 1]] true false 0) [3, 2, 1] := ⟨by decide, by decide, by decide, trivial⟩
 
 /-- **tri_den**: `tri(N, M, k)[i, j] = (arange(N)[i] >= arange(-k, M-k)[j])` is NumPy's `j - k ≤ i`
     (given `arange_den` for both operands). -/
